@@ -149,6 +149,8 @@ def leanchecker(prop):
 def build_harness(race=False):
     os.makedirs(BIN, exist_ok=True)
     name = "harness-race" if race else "harness"
+    if REPO != "/repo":
+        name += "-" + hashlib.md5(REPO.encode()).hexdigest()[:8]   # never clobber the binary built against /repo
     out_bin = os.path.join(BIN, name)
     env = dict(GOENV)
     cmd = ["go", "build", "-tags", "verif", "-o", out_bin]
